@@ -293,6 +293,14 @@ ExportState ==
   THEN PrintT(ToJson([kind |-> "state", s |-> StateRec(cfg, now, ring), grid |-> GridSeq]))
   ELSE TRUE
 
+\* behaviours (simulation mode): as an INVARIANT this is evaluated on the states a simulated behaviour actually
+\* visits (an ACTION_CONSTRAINT would be evaluated on every candidate successor); `op` tells which call led here
+ExportVisited ==
+  IF Export = "steps"
+  THEN PrintT(ToJson([kind |-> "step", lvl |-> TLCGet("level"), cfg |-> cfg, now |-> now,
+                      op |-> op, ring |-> ring, durable |-> durable]))
+  ELSE TRUE
+
 \* behaviours (simulation mode): every step with full pre/post incl. durable
 ExportStep ==
   IF Export = "steps"
